@@ -331,6 +331,35 @@ def topic_map(ctx: Ctx, chk) -> None:
     else:
         miss = [n for n, o in (("topic", topic_ok), ("qos", qos_ok), ("payload", payload_ok)) if not o]
         chk.refute(rule, key, f"client.publish does not receive {', '.join(miss) or 'an awaited call'} unchanged", ctx.loc(pub, c))
+    # ---- the mapping code keeps no per-message state: options handed to publish are built fresh on every call
+    chk.instance(rule)
+    key = f"{pub.fq}::fresh-options"
+    aliases = {}
+    for n in ctx.own_nodes(pub):
+        if isinstance(n, (ast.Assign, ast.AnnAssign)):
+            tg = n.targets[0] if isinstance(n, ast.Assign) else n.target
+            if isinstance(tg, ast.Name) and n.value is not None and isinstance(n.value, ast.Attribute) and norm(n.value).startswith("self."):
+                aliases[tg.id] = norm(n.value)
+    stale = None
+    for n in ctx.own_nodes(pub):
+        targets = n.targets if isinstance(n, ast.Assign) else [n.target] if isinstance(n, (ast.AugAssign, ast.AnnAssign)) else []
+        for tg in targets:
+            base = tg
+            while isinstance(base, ast.Subscript):
+                base = base.value
+            if isinstance(tg, ast.Subscript) and isinstance(base, ast.Name) and base.id in aliases:
+                stale = (n, f"{norm(tg)} (an alias of {aliases[base.id]})")
+            elif isinstance(tg, (ast.Subscript, ast.Attribute)) and norm(base).startswith("self."):
+                stale = (n, norm(tg))
+        if isinstance(n, ast.Call) and isinstance(n.func, ast.Attribute) and n.func.attr in ("update", "setdefault", "pop", "clear") and (norm(n.func.value).startswith("self.") or (isinstance(n.func.value, ast.Name) and n.func.value.id in aliases)):
+            stale = (n, norm(n.func.value))
+    used_alias = [k.value.id for k in c.keywords if k.arg is None and isinstance(k.value, ast.Name) and k.value.id in aliases]
+    if stale is not None:
+        chk.refute(rule, key, f"_publish writes `{stale[1]}`: publish options live in the transport object and are mutated per message, so a value set for one write (a payload) leaks into the next write that omits it", ctx.loc(pub, stale[0]))
+    elif used_alias:
+        chk.refute(rule, key, f"publish options are the shared object {aliases[used_alias[0]]}, not built per call", ctx.loc(pub, c))
+    else:
+        chk.ok(rule, key, "publish options are built from the arguments on every call", ctx.loc(pub, c), sample=False)
     # ---- subscriptions
     subscriptions(ctx, chk, rule)
 
@@ -623,3 +652,10 @@ def eea_mqtt(ctx: Ctx, chk) -> None:
     f = mt.find_method("disconnect")
     escape_rule(ctx, chk, rule, [("MQTTTransport.disconnect", eea.escapes_of(f, None))], lambda exc, site: False, eea)
     chk.floor(rule, "entry points", 4, 4)
+
+
+def thorough(ctx: Ctx, chk) -> None:
+    from .common import prune_diff
+
+    entries = [(ctx.cls(MT).find_method(n), None) for n in ("connect", "read", "write", "disconnect")] + [(ctx.cls(MC).find_method("_handle_incoming"), None)]
+    prune_diff(ctx, chk, entries)
